@@ -23,6 +23,7 @@ LOCALES = ["C", "C.UTF-8", "POSIX", "de_DE.UTF-8", "tr_TR.UTF-8", ""]
 JUNK = [{"ZERV_X": "1", "FOO": "bar"}, {"COLUMNS": "7", "LINES": "1", "TERM": "dumb"}, {"NO_COLOR": "1", "CLICOLOR_FORCE": "1"},
         {"LC_TIME": "ja_JP.UTF-8", "LC_NUMERIC": "de_DE.UTF-8"}, {"RUST_BACKTRACE": "1"}, {"PAGER": "cat", "EDITOR": "vi"}, {"TMPDIR": "/nonexistent"},
         {"USER": "someone", "LOGNAME": "else"}, {"SOURCE_DATE_EPOCH": "1"}, {"ZERV_TEST_NATIVE_GIT": "1"},
+        {"RUST_LOG": "trace"}, {"RUST_LOG": "=[{", "ZERV_FORCE_RUST_LOG_OFF": "1"}, {"RUST_LOG": "zerv=debug,warn", "RUST_LOG_STYLE": "always"},      # logging goes to stderr: stdout must not move
         {"CI": "true", "GITHUB_ACTIONS": "true", "GITHUB_HEAD_REF": "feature/ci", "GITHUB_REF_NAME": "release/9", "GITHUB_REF": "refs/heads/release/9", "GITHUB_SHA": "0" * 40},
         {"CI_COMMIT_REF_NAME": "hotfix/1", "CI_COMMIT_BRANCH": "hotfix/1", "CI_COMMIT_SHA": "f" * 40, "CI_COMMIT_TAG": "v9.9.9", "GITLAB_CI": "true"},
         {"BRANCH_NAME": "release/2", "GIT_BRANCH": "origin/develop", "BUILD_NUMBER": "77", "JENKINS_URL": "http://x", "TRAVIS_BRANCH": "dev", "CIRCLE_BRANCH": "dev"},
@@ -37,6 +38,17 @@ TS_TEMPLATES = ["{{ format_timestamp(value=bumped_timestamp) }}", "{{ format_tim
 def gen_vector(rng):
     """-> dict(argv, stdin, clock_dependent (bool), has_dates (bool), kind)"""
     k = rng.random()
+    if k < 0.08:
+        # render and check are pure functions of their arguments
+        from . import c08, c09
+        vs = rng.choice([c08.gen_version(rng), c09.mutate(c09.gen_struct(rng), rng), "1.2.3-rc.1+b.7", "2!1.0.post1.dev3+l.1", "not a version"]).replace("\x00", "")
+        if rng.random() < 0.5:
+            argv = ["check", "--format", rng.choice(["semver", "pep440"]), "--", vs] if rng.random() < 0.7 else ["check", "--", vs]
+        elif rng.random() < 0.7:
+            argv = ["render", "--output-format", rng.choice(["semver", "pep440", "zerv"]), "--", vs]
+        else:
+            argv = ["render", "--output-template", rng.choice(TS_TEMPLATES[3:] + ["{{ semver }}/{{ pep440 }}", "{{ major }}-{{ sanitize(value=semver, preset='pep440') }}"]), "--", vs]
+        return dict(argv=argv, stdin=None, clock=False, dates=False, kind="render-check")
     if k < 0.3:
         c = c04.gen_case(rng)
         fmt = rng.choice(["semver", "pep440", "zerv"])
